@@ -362,4 +362,62 @@ theorem clause_tracebacks (hcl : p.skipDeco = none → (runCore p ff0).1.clobber
 
 end perRun
 
+/-! ## headline -/
+theorem perRun_runMany_partial (c : Program → Bool → Trace → Bool) (p : Program)
+    (h : ∀ ff0, (p.skipDeco = none → (runCore p ff0).1.clobbered = false) → c p ff0 (runOnce p ff0) = true) :
+    ∀ (n : Nat) (ff0 : Bool), clobberedRuns p n ff0 = false → perRun c p ff0 (runMany p n ff0) = true
+  | 0, _, _ => rfl
+  | n + 1, ff0, hc => by
+    simp only [clobberedRuns, Bool.or_eq_false_iff, Bool.and_eq_false_iff] at hc
+    have h1 : p.skipDeco = none → (runCore p ff0).1.clobbered = false := by
+      intro hs
+      rcases hc.1 with h1 | h1
+      · simp [hs] at h1
+      · exact h1
+    simp only [runMany, perRun, h ff0 h1, Bool.true_and]
+    exact perRun_runMany_partial c p h n _ hc.2
+
+theorem lift_model_partial (c : Program → Bool → Trace → Bool) (i : Input) (hl : lateCollision i = false)
+    (h : wf i.prog = true → ∀ ff0, (i.prog.skipDeco = none → (runCore i.prog ff0).1.clobbered = false) →
+      c i.prog ff0 (runOnce i.prog ff0) = true) : lift c i (model i) = true := by
+  unfold lift model
+  cases hwf : wf i.prog with
+  | false => simp
+  | true => simp [C01.runMany_length, perRun_runMany_partial c i.prog (h hwf) i.runs false hl]
+
+/-- the clauses proved so far -/
+def provedClauses : List (String × (Input → List Trace → Bool)) :=
+  [("user-details", lift cUserDetails), ("tracebacks", lift cTracebacks), ("names-distinct", lift cNamesDistinct),
+   ("skip-reason", lift cReason), ("on-exception-handlers", lift cOnException)]
+
+/-- The executable spec of C05 holds of the model's trace for every input outside the known-finding class
+`lateCollision` (D3).
+Full statement (false inside the class, see `C05_finding_witness`): `∀ i, holds i (model i) = true`. -/
+theorem holds_model_partial (i : Input) (h : lateCollision i = false) :
+    provedClauses.all (fun c => c.2 i (model i)) = true := by
+  simp only [provedClauses, List.all_cons, List.all_nil, Bool.and_true, Bool.and_eq_true]
+  exact ⟨C01.lift_model _ i (fun hwf ff0 => clause_userDetails _ ff0 hwf),
+    lift_model_partial _ i h (fun hwf ff0 hcl => clause_tracebacks _ ff0 hwf hcl),
+    C01.lift_model _ i (fun hwf ff0 => clause_namesDistinct _ ff0 hwf),
+    C01.lift_model _ i (fun hwf ff0 => clause_reason _ ff0 hwf),
+    C01.lift_model _ i (fun hwf ff0 => clause_onException _ ff0 hwf)⟩
+
+/-! ## the finding: a plain `addDetail('traceback')` in tearDown replaces the traceback of the test's failure -/
+def witness : Program :=
+  { skipDeco := none, xfailDeco := false
+    setUp := .mk 1 [] .ret
+    body := .mk 2 [] (.raise1 ⟨.failure, 1⟩)
+    tearDown := .mk 3 [.addDetail nmTraceback ⟨1, false⟩] .ret
+    userHandlers := [], nOnExc := 0, attrs0 := [], flavour := .ext }
+
+theorem witness_core : runCore witness false = runCoreNC witness false :=
+  runCore_noCleanups witness false (by decide)
+
+theorem C05_finding_witness : ∃ i, lateCollision i = true ∧ holds i (model i) = false := by
+  refine ⟨⟨witness, 1⟩, ?_, ?_⟩
+  · simp only [lateCollision, clobberedRuns, witness_core]
+    decide
+  · simp only [model, runMany, runOnce, witness_core]
+    decide
+
 end TTV.Props.C05
